@@ -46,6 +46,34 @@ func propC13(t *rapid.T) {
 	col.Case()
 	cfg := irsem.GenCfg{MaxDepth: rapid.IntRange(1, ev.Scale(5, 7)).Draw(t, "depth"), GadgetProb: 10, LessBudget: 4096, MoreLess: true}
 	e := irsem.GenExpr(t, cfg)
+	if rapid.IntRange(0, 3).Draw(t, "rootShape") == 0 {
+		// a root conditional NARROWER (or wider) than a binary operation in one of its
+		// branches; operands are leaves so that shift amounts / operands wider than
+		// the conditional are frequent
+		leaf := func(label string) expr.Expr {
+			w := expr.Width(rapid.IntRange(1, 4).Draw(t, label+"w"))
+			switch rapid.IntRange(0, 2).Draw(t, label+"k") {
+			case 0:
+				return expr.NewRegLoad(irsem.RegKeys[rapid.IntRange(0, 3).Draw(t, label+"r")], w)
+			case 1:
+				bs := make([]byte, w)
+				bs[0] = byte(rapid.IntRange(0, 17).Draw(t, label+"lo"))
+				if w > 1 {
+					bs[rapid.IntRange(1, int(w)-1).Draw(t, label+"hi")] = rapid.Byte().Draw(t, label+"hb")
+				}
+				return expr.NewConst(bs, w)
+			}
+			return irsem.GenConst(t, w, label+"c")
+		}
+		bw := expr.Width(rapid.IntRange(2, 4).Draw(t, "branchW"))
+		rw := expr.Width(rapid.IntRange(1, 5).Draw(t, "rootW"))
+		br := expr.NewBinary(binOpsAll[rapid.IntRange(0, len(binOpsAll)-1).Draw(t, "branchOp")], leaf("x"), leaf("y"), bw)
+		var tr, fl expr.Expr = br, e
+		if rapid.Bool().Draw(t, "branchSide") {
+			tr, fl = e, br
+		}
+		e = expr.NewLess(leaf("p"), leaf("q"), tr, fl, rw)
+	}
 	before := irsem.String(e)
 	wantN := c13Count(e)
 	if wantN > 4096 {
@@ -111,7 +139,8 @@ func propC13(t *rapid.T) {
 
 func TestC13(t *testing.T) {
 	colC13 = ev.New("C13", "rapid: expression trees (depth <= 5) with conditionals nested in conditions, branches, "+
-		"binary operands and memory-load addresses, alternatives capped at 4096 by a budget passed down the generator; "+
+		"binary operands and memory-load addresses, alternatives capped at 4096 by a budget passed down the generator; a quarter of the trees gets a root conditional of "+
+		"1-5 bytes over a 2-4 byte binary operation of leaves (shift amounts / operands wider than the conditional); "+
 		"every alternative must have the expression's width and no conditional, "+
 		"and under 3 valuations the value of the expression must equal the value of some alternative (math/big "+
 		"evaluator). non-trivial = >=2 conditionals with a branch width different from the conditional's width; "+
